@@ -54,6 +54,10 @@ func (s *Slice) Apply(inputs []tensor.Tensor) ([]tensor.Tensor, error) {
 		}
 	}
 
+	if err := s.validateSlices(starts, ends, steps, axes, data.Shape()); err != nil {
+		return nil, err
+	}
+
 	slices := s.constructSlices(starts, ends, steps, axes, len(data.Shape()))
 
 	out, err := data.Slice(slices...)
@@ -94,6 +98,32 @@ func (s *Slice) GetInputTypeConstraints() [][]tensor.Dtype {
 // String implements the stringer interface, and can be used to format errors or messages.
 func (s *Slice) String() string {
 	return "slice operator"
+}
+
+// validateSlices refuses the requests the slicing of the underlying tensor library cannot
+// answer: negative (or zero) steps.
+func (s *Slice) validateSlices(starts, ends, steps, axes []int, shape tensor.Shape) error {
+	nDims := len(shape)
+
+	for i, ax := range axes {
+		if i >= len(starts) || i >= len(ends) || i >= len(steps) {
+			return ops.ErrInvalidInput("starts, ends, axes and steps must have the same length", s)
+		}
+
+		if ax < -nDims || ax >= nDims {
+			return ops.ErrAxisOutOfRange(nDims, nDims, ax)
+		}
+
+		if ax < 0 {
+			ax += nDims
+		}
+
+		if steps[i] < 1 {
+			return ops.ErrInvalidInput("only positive steps are supported", s)
+		}
+	}
+
+	return nil
 }
 
 // constructSlice constructs a list with tensor.Slice objects. The list is initializes with nils.
